@@ -79,6 +79,15 @@ def scenario(job):
 
 def reference(job):
     i, cfg, N, exe, root = job
+    if cfg.get("turbulence") and cfg["turbulence"].get("commensurate"):
+        # make the driving times of the turbulence forcing coincide with ends of hydro steps: probe the hydro step size
+        # without forcing, then use twice that as forcing step (the comparison "driving time < end of step" then sits
+        # exactly on the boundary, where a restarted run must still take the same decision as the uninterrupted one)
+        pd = os.path.join(root, "g%03d_probe" % i)
+        rp, recs = hydrorun.run(exe, pd, dict(cfg, turbulence=None, dump_interval=1e30), threads=1, steps=1, dump=False)
+        shutil.rmtree(pd, ignore_errors=True)
+        if rp.rc == 0 and len(recs) >= 2 and recs[1]["dt_used"] > 0:
+            cfg["turbulence"]["dt"] = cfg["turbulence"]["commensurate"] * recs[1]["dt_used"]
     ref_dir = os.path.join(root, "g%03d_ref" % i)
     r, recs = hydrorun.run(exe, ref_dir, cfg, threads=1, steps=N, dump=False)
     shutil.rmtree(ref_dir, ignore_errors=True)
@@ -96,7 +105,7 @@ def main():
         chk.inconclusive_because(str(e)); chk.finish()
     root = chk.rundir()
     rng = common.SplitMix64(chk.seed * 49979687 + 9)
-    N = 6 if quick else 20
+    N = int(os.environ.get("C09_STEPS", "0")) or (24 if quick else 40)
     geoms = list(GEOMS)
     rng.shuffle(geoms)
     if quick and not os.environ.get("C09_ALL_GEOMETRIES"):
@@ -115,10 +124,11 @@ def main():
             pass
         cfg = dict(ncell=ncell, nsub=nsub, periodic=periodic, box=(anchor, sides), blocks=blocks, gamma=r.choice([1.4, 5. / 3.]),
                    cfl=0.2, total_time=1e-3 * scale, dump_interval=0., backups=1)
-        if sides[0] == sides[1] == sides[2] and r.chance(0.6):
+        if sides[0] == sides[1] == sides[2] and (quick or r.chance(0.6)):
             # optional component: turbulence forcing (needs a cubic box); its random stream and amplitudes are part of the dump
-            cfg["turbulence"] = dict(dt=1e-6 * scale, power=10 ** r.uniform(5, 9) * scale ** 2 / (1e-3 * scale) ** 3 * 1e-9, seed=r.randint(1, 10 ** 5))
-        ks = list(range(1, N)) if not quick else sorted(set([1, 2, r.randint(3, N - 1)]))
+            cfg["turbulence"] = dict(dt=1e-6 * scale, power=10 ** r.uniform(5, 9) * scale ** 2 / (1e-3 * scale) ** 3 * 1e-9, seed=r.randint(1, 10 ** 5),
+                                     commensurate=[0.25, 0.5, 0.125, 2, None, 0.25][i % 6])
+        ks = list(range(1, N)) if not quick else sorted(set([1, 2, N - 1] + [r.randint(3, N - 2) for _ in range(4)]))
         for k in ks:
             jobs.append((i, cfg, N, [k], exe, root, None))
         chain = sorted(set([1, r.randint(2, N - 2), N - 1]))
